@@ -491,7 +491,9 @@ class stem_from_entries:
          "do": ["let T = strand5p_entries", "let E = all_entries", "let w = len(T)", "let a = T[0].pair - w",
                 "let F = filter_index()", "let PS = filter_pos()", "let m = len(strand3p_entries)",
                 "forall t | assert implies(0 <= t and t < w, T[t].pair == T[0].pair - t and T[t].index_ == T[0].index_ + t and T[t].index_ < T[t].pair and 1 <= T[t].pair and T[t].pair <= len(E))",
-                "assert a >= 0 and a + w <= len(E) and T[0].index_ + w - 1 < a + 1",
+                "assert w >= 1 and T[w - 1].pair == T[0].pair - (w - 1) and T[w - 1].index_ == T[0].index_ + (w - 1) and T[w - 1].index_ < T[w - 1].pair"
+                " and 1 <= T[w - 1].pair and T[0].pair <= len(E)",
+                "assert_last 1 a >= 0 and a + w <= len(E) and T[0].index_ + w - 1 < a + 1",
                 "forall i | assert implies(a <= i and i <= a + w - 1, T[a + w - 1 - i].pair == i + 1 and E[i].index_ == i + 1)"
                 " | assert implies(a <= i and i <= a + w - 1, E[i].index_ in paired)"
                 " | assert implies(a <= i and i <= a + w - 1, 0 <= PS[i] and PS[i] < m and F[PS[i]] == i)",
@@ -815,7 +817,7 @@ class bpseq_elements_prefix:
         "stem_strands(stems, S, E, DB, len(S))",
         "forall(lambda b: implies(0 <= b and b < len(hairpins), hairpin_ok(hairpins[b], E, DB)))",
         "forall(lambda b: implies(0 <= b and b < len(loop_candidates), cand_ok(loop_candidates[b], E, DB)))",
-        "tails_ok(single_strands, E, DB, stops[0], stops[len(stops) - 1])",
+        "tails_ok(single_strands, E, DB, p0, p1)",
     ]
     stop_ensures_labels = {0: "S-are-the-maximal-runs-of-stacked-pairs", 1: "one-Stem-per-run-with-mirrored-strand-ends",
                            2: "stem-strands-are-the-slices", 3: "hairpins-enclose-only-unpaired-and-are-the-slices",
@@ -873,6 +875,25 @@ class bpseq_elements_prefix:
                 " | assert implies(c and qual(E[y]), p0 <= y and x <= p1 and y < x)"
                 " | assert implies(c, p0 <= x and x <= p1)",
                 "assert 0 <= p0 and p0 <= p1 and p1 < n and E[p0].pair != 0 and E[p1].pair != 0"]},
+        {"when": "after", "at": "if stops[0] > 0", "label": "tail5",
+         "do": ["assert E[0].index_ == 1 and n > 0",
+                "assert implies(p0 > 0, len(single_strands) == 1 and single_strands[0].is5p and not single_strands[0].is3p)",
+                "assert implies(p0 > 0, strand_of(single_strands[0].strand, self.entries[: p0 + 1], DB))",
+                "assert implies(p0 > 0, strand_at(single_strands[0].strand, E, DB, 0, p0 + 1))",
+                "assert implies(not (p0 > 0), len(single_strands) == 0)",
+                "let SS5 = single_strands"]},
+        {"when": "after", "at": "if stops[-1] < len(self.entries) - 1", "label": "tail3",
+         "do": ["let m3 = len(single_strands) - 1", "let has3 = p1 < n - 1",
+                "assert E[p1].index_ == p1 + 1 and stops[-1] == p1",
+                "assert len(single_strands) == len(SS5) + ite(has3, 1, 0)",
+                "assert implies(has3, single_strands[m3].is3p and not single_strands[m3].is5p)",
+                "assert implies(has3, strand_of(single_strands[m3].strand, self.entries[p1:], DB))",
+                "assert implies(has3, strand_at(single_strands[m3].strand, E, DB, p1, n - p1))",
+                "assert implies(p0 > 0, single_strands[0] is SS5[0] and single_strands[0].is5p and not single_strands[0].is3p and strand_at(single_strands[0].strand, E, DB, 0, p0 + 1))",
+                "assert forall(lambda x: implies(0 <= x and x < p0, E[x].pair == 0)) and forall(lambda x: implies(p1 < x and x < n, E[x].pair == 0))",
+                "assert 0 <= p0 and p0 <= p1 and p1 < n and E[p0].pair != 0 and E[p1].pair != 0 and n == len(E)",
+                "assert len(single_strands) == ite(p0 > 0, 1, 0) + ite(p1 < n - 1, 1, 0)",
+                "assert_last 9 tails_ok(single_strands, E, DB, p0, p1)"]},
         {"when": "before", "at": "candidate = self.entries[", "loop": 1, "label": "ends",
          "do": ["assert i >= 1 and i < len(stops) and n == len(E) and n >= 0",
                 "assert 0 <= stops[i - 1] and stops[i - 1] < stops[i] and stops[i] < n and E[stops[i - 1]].pair != 0 and E[stops[i]].pair != 0"]},
@@ -902,7 +923,7 @@ class bpseq_elements_prefix:
                 " | assert implies(p + 1 <= x and x < q, E[x].pair == 0)",
                 "assert candidate[0] is E[p] and candidate[-1] is E[q] and E[q].index_ == q + 1",
                 "assert_last 1 (candidate[0].pair == candidate[-1].index_) == (E[p].pair == q + 1)",
-                "assert len(candidate) == q - p + 1 and candidate[0].index_ == p + 1 and 0 <= p and p < q and q < n and n == len(E)",
+                "assert len(candidate) == q - p + 1 and candidate[0].index_ == p + 1 and E[q].index_ == q + 1 and E[p].pair != 0 and E[q].pair != 0 and 0 <= p and p < q and q < n and n == len(E)",
                 "assert forall(lambda t: implies(0 <= t and t < q - p + 1, candidate[t] is E[p + t]))",
                 "assert forall(lambda x: implies(p + 1 <= x and x < q, E[x].pair == 0))",
                 "let fr0 = frontier()",
